@@ -212,6 +212,18 @@ impl PathMap {
             return Some((*loc, leaf));
         }
 
+        // `validator` files a struct-level (schema) issue under the pseudo-field `__all__`: no
+        // YAML key has that name (the direct lookup above would have found it), the issue
+        // belongs to the struct itself and is located where the struct is.
+        if path.leaf_string().as_deref() == Some("__all__")
+            && let Some(parent) = path.parent()
+            && !parent.is_empty()
+        {
+            return self
+                .search(&parent)
+                .map(|(locs, _)| (locs, "__all__".to_owned()));
+        }
+
         // Multi-pass matching (more exact -> more fuzzy). Each pass succeeds only if it yields
         // exactly one candidate.
         //
